@@ -673,3 +673,616 @@ Section NoPanic.
       - intros c Hcin. apply in_app_or in Hcin as [Hcin|Hcin]; [apply Hs; exact Hcin|].
         apply in_app_or in Hcin as [Hcin|Hcin]; apply brk_simple; [apply Is|apply Ie]; exact Hcin.
     Qed.
+
+    (* -------------------------------------------------------------- greedy_match *)
+    Definition NoKw (ms : list N) : Prop := forall c, In c ms -> kwlike_b g c = false.
+    (** no keyword-like matcher of [ms] selected at the first token matches there *)
+    Definition FirstGuard (len : N) (ms terms : list N) : Prop :=
+      forall c t0 m, In c ms -> get toks 0 = Some t0 -> cand c t0 -> kwlike_b g c = true ->
+                     rec c 0 len terms = ROk m -> has_match m = false.
+    Definition ScanSafe (w len : N) (ms terms : list N) : Prop :=
+      0 < w \/ NoKw ms \/ (tok0_ok /\ FirstGuard len ms terms).
+
+    Lemma kwlike_of_simple c raws tys a :
+      simple_of g c = ROk (Some (raws, tys, a)) -> kwlike_b g c = is_empty tys && a.
+    Proof.
+      unfold simple_of, info, kwlike_b. destruct (get (g_nodes g) c) as [i|]; cbn [bind]; [|discriminate].
+      intro H. inversion H as [H1]. rewrite H1. reflexivity.
+    Qed.
+
+    (** the matcher of a hit at the first token cannot be keyword-like *)
+    Lemma scan_start_pos w len ms terms m c :
+      ScanSafe w len ms terms -> Hit len w (ms ++ brk g) terms m c -> kwlike_b g c = true -> w = 0 ->
+      0 < mr_start m.
+    Proof.
+      intros Hss (j & t & H1 & H2 & H3 & H4 & H5 & H6 & H7) Hk Hw.
+      destruct (N.eq_dec (mr_start m) 0) as [E|E]; [|lia]. exfalso.
+      assert (Hj : j = 0) by (pose proof (HrecB _ _ _ _ _ (N.lt_le_incl _ _ H2) H6) as (J1 & _); lia). subst j.
+      apply in_app_or in H4 as [H4|H4]; [|destruct (brk_simple _ H4); congruence].
+      destruct Hss as [Hss|[Hss|[_ Hss]]]; [lia|rewrite (Hss _ H4) in Hk; discriminate|].
+      rewrite (Hss _ _ _ H4 H3 H5 Hk H6) in H7. discriminate.
+    Qed.
+
+    Lemma greedy_loop_np k : forall fl len idx ms terms it nested w ch,
+      idx <= w -> w <= len -> len <= ntoks -> Tok0 w ->
+      SimpleAll ms -> CallAll ms terms -> CallAll (brk g) terms -> ScanSafe w len ms terms ->
+      NPr (greedy_loop g toks rec k fl len idx ms terms it nested w ch).
+    Proof.
+      induction k as [|k IH]; intros fl len idx ms terms it nested w ch Hw Hwl Hl H0 Hs Hc Hb Hss;
+        cbn [greedy_loop]; [apply np_fuel|].
+      apply np_bind; [apply next_ex_bracket_match_np; auto|]. intros [[matched mt] inner] Hneb.
+      pose proof (next_ex_bracket_match_spec g toks rec HrecB _ _ _ _ _ _ _ _ Hwl Hneb) as (M1 & M2 & M3).
+      destruct (negb (has_match matched)) eqn:Ehm; [apply np_ok|]. apply negb_false_iff in Ehm.
+      apply next_ex_bracket_match_res in Hneb; auto. destruct Hneb as (c & -> & Hhit).
+      pose proof Hhit as (j & t & H1 & H2 & H3 & H4 & (raws & tys & a & Hsim & Hcd) & H6 & H7).
+      rewrite Hsim. cbn [bind].
+      pose proof (kwlike_of_simple _ _ _ _ Hsim) as Hkw.
+      assert (Hpos : kwlike_b g c = true -> w = 0 -> 0 < mr_start matched)
+        by (intros; eapply scan_start_pos; eassumption).
+      apply np_bind.
+      - destruct (is_empty tys && a) eqn:Ek; [|apply np_ok].
+        destruct (mr_start matched <? w) eqn:Elt; [apply np_ok|]. b2p.
+        destruct (N.eq_dec w 0) as [Ew|Ew].
+        + specialize (Hpos Hkw Ew).
+          destruct H0 as [H0|H0]; [lia|].
+          apply allowable_scan_np0; auto; try lia. intros t0 Ht0. apply (H0 t0 Ht0).
+        + apply allowable_scan_np; try lia.
+      - intros ok Hok. destruct (negb ok) eqn:Eok.
+        + apply negb_true_iff in Eok. subst ok.
+          assert (Hk' : kwlike_b g c = true).
+          { rewrite Hkw. destruct (is_empty tys && a); [reflexivity|]. discriminate. }
+          apply IH; auto; try lia.
+          * eapply Tok0_le; [|exact H0]. lia.
+          * destruct (N.eq_dec w 0) as [Ew|Ew]; [specialize (Hpos Hk' Ew)|]; left; lia.
+        + destruct it; [apply np_ok|].
+          apply np_bind; [apply skip_back_np; lia|]. intros stop2 _. destruct (idx =? stop2); apply np_ok.
+    Qed.
+
+    Lemma greedy_match_np fl len idx ms terms it nested :
+      idx <= len -> len <= ntoks -> Tok0 idx ->
+      SimpleAll ms -> CallAll ms terms -> CallAll (brk g) terms -> ScanSafe idx len ms terms ->
+      NPr (greedy_match g toks rec fl len idx ms terms it nested).
+    Proof. intros. unfold greedy_match. apply greedy_loop_np; auto. lia. Qed.
+
+    (* -------------------------------------------------------------- trim_to_terminator *)
+    Lemma intersects_nil a : intersects a [] = false.
+    Proof. unfold intersects. induction a as [|x a IH]; cbn; [reflexivity|exact IH]. Qed.
+
+    Lemma first_nonws_0 len t0 : 0 < len -> get toks 0 = Some t0 -> p_fnw t0 = Some (p_ftr t0) ->
+      first_nonws toks len 0 = Some (p_ftr t0, p_types t0).
+    Proof.
+      intros Hl Ht Hf. unfold first_nonws. cbn [first_nonws_aux].
+      assert (E : (0 <? len) = true) by (apply N.ltb_lt; exact Hl). rewrite E, Ht, Hf. reflexivity.
+    Qed.
+
+    Lemma trim_to_terminator_np fl len idx ts terms :
+      idx <= len -> len <= ntoks -> Tok0 idx ->
+      SimpleAll ts -> CallAll ts terms -> CallAll (brk g) terms ->
+      NPr (trim_to_terminator g toks rec fl len idx ts terms).
+    Proof.
+      intros Hi Hl H0 Hs Hc Hb. unfold trim_to_terminator.
+      destruct (len <=? idx) eqn:E; [apply np_ok|]. b2p.
+      pose proof (callall_present _ _ Hc) as Hp.
+      destruct (prune_total ts len idx Hp) as (pruned & Hpr & Hin). rewrite Hpr. cbn [bind].
+      apply np_bind.
+      { apply first_term_matches_np; auto. intros c Hcin. apply Hc. apply Hin. exact Hcin. }
+      intros hit Hhit. destruct hit; [apply np_ok|].
+      apply np_bind.
+      - apply greedy_match_np; auto; try lia.
+        destruct H0 as [H0|H0]; [left; exact H0|].
+        destruct (N.eq_dec idx 0) as [Ez|Ez]; [|left; lia]. subst idx.
+        right. right. split; [exact H0|].
+        intros c t0 m Hcin Ht0 (raws & tys & a & Hsim & Hcd) Hk Hm.
+        destruct (H0 t0 Ht0) as [_ Hf].
+        unfold prune in Hpr. rewrite (first_nonws_0 len t0 E Ht0 Hf) in Hpr.
+        destruct (prune_aux_total (p_ftr t0) (p_types t0) ts Hp) as (l & Hl' & _ & Hkeep).
+        rewrite Hl' in Hpr. inversion Hpr; subst l.
+        rewrite (kwlike_of_simple _ _ _ _ Hsim) in Hk. apply andb_true_iff in Hk as [Hk _].
+        apply is_empty_nil in Hk. subst tys. rewrite intersects_nil, orb_false_r in Hcd.
+        destruct (first_term_matches_false _ _ _ _ c Hhit (Hkeep _ _ _ _ Hcin Hsim Hcd)) as (m' & Hm' & Hf').
+        rewrite Hm in Hm'. inversion Hm'; subst. exact Hf'.
+      - intros tm Htm. apply (greedy_match_spec g toks rec HrecB) in Htm; [|lia].
+        destruct Htm as (_ & _ & T3). apply skip_back_np; lia.
+    Qed.
+
+    (* -------------------------------------------------------------- Sequence *)
+    Definition ElemOK (terms : list N) (e : N) : Prop :=
+      exists ie, get (g_nodes g) e = Some ie /\
+                 match n_node ie with
+                 | GMeta _ | GCond _ _ => True
+                 | _ => Callable e terms /\ exists b, n_opt ie = Some b
+                 end.
+    Definition TrimOK (ts terms : list N) : Prop :=
+      SimpleAll (ts ++ terms) /\ CallAll (ts ++ terms) terms /\ CallAll (brk g) terms.
+    Definition SeqOK (d : seq_d) (terms : list N) : Prop :=
+      (forall e, In e (sq_elems d) -> ElemOK terms e)
+      /\ (sq_mode d = Strict \/ TrimOK (sq_terms d) terms).
+
+    Lemma opt_of_some e ie b : get (g_nodes g) e = Some ie -> n_opt ie = Some b -> opt_of g e = ROk b.
+    Proof. intros H1 H2. unfold opt_of. rewrite (info_present _ _ H1). cbn [bind]. rewrite H2. reflexivity. Qed.
+
+    Lemma trim_np_of fl len idx ts terms :
+      idx <= len -> len <= ntoks -> Tok0 idx -> TrimOK ts terms ->
+      NPr (trim_to_terminator g toks rec fl len idx (ts ++ terms) terms).
+    Proof. intros Hi Hl H0 (H1 & H2 & H3). apply trim_to_terminator_np; auto. Qed.
+
+    Lemma seq_elem_np fl d len si terms st e :
+      SInv si len st -> len <= ntoks -> Tok0 si -> ElemOK terms e ->
+      (sq_mode d = Strict \/ TrimOK (sq_terms d) terms) ->
+      NPr (seq_elem g toks rec fl d len si terms st e).
+    Proof.
+      intros (I1 & I2 & I3) Hl H0 (ie & Hie & He) Htr. unfold seq_elem.
+      rewrite (info_present _ _ Hie). cbn [bind].
+      destruct (n_node ie) eqn:En; try apply np_ok.
+      all: destruct He as (Hcall & b & Hb);
+        pose proof (opt_of_some _ _ _ Hie Hb) as Hopt;
+        (apply np_bind; [destruct (sq_gaps d); [apply skip_fwd_np; lia|apply np_ok]|]);
+        intros idx' Hidx';
+        assert (Hidx : s_matched st <= idx' /\ idx' <= s_max st)
+          by (destruct (sq_gaps d); [apply skip_fwd_spec in Hidx'; lia|inversion Hidx'; subst; lia]);
+        destruct (s_max st <=? idx') eqn:Emax; b2p;
+        [ rewrite Hopt; cbn [bind]; destruct b; [apply np_ok|];
+          destruct (pmode_eqb (sq_mode d) Strict || (s_matched st =? si)); apply np_ok
+        | assert (El : (len <? s_max st) = false) by (apply N.ltb_ge; lia); rewrite El; cbn [bind];
+          apply np_bind;
+          [ apply HrecNP; [lia|lia|eapply Tok0_le; [|exact H0]; lia|exact Hcall]
+          | intros em Hem;
+            assert (Hemb : B idx' (s_max st) em) by (eapply HrecB; [|exact Hem]; lia);
+            destruct Hemb as (E1 & E2 & E3);
+            destruct (negb (has_match em));
+            [ rewrite Hopt; cbn [bind]; destruct b; [apply np_ok|];
+              destruct (pmode_eqb (sq_mode d) Strict); [apply np_ok|];
+              destruct (pmode_eqb (sq_mode d) GreedyOnceStarted && (s_matched st =? si)); [apply np_ok|];
+              destruct (s_matched st =? si); [apply np_ok|];
+              apply np_bind; [apply skip_fwd_np; lia|intros; apply np_ok]
+            | apply np_bind;
+              [ destruct (s_first st && pmode_eqb (sq_mode d) GreedyOnceStarted) eqn:Eg; [|apply np_ok];
+                destruct Htr as [Htr|Htr];
+                [ rewrite Htr in Eg; cbn in Eg; rewrite andb_false_r in Eg; discriminate
+                | apply trim_np_of; [lia|exact Hl|eapply Tok0_le; [|exact H0]; lia|exact Htr] ]
+              | intros newmax _; destruct (is_some (mr_matched em)); apply np_ok ] ] ] ].
+    Qed.
+
+    Lemma seq_loop_np fl d len si terms es : forall st,
+      SInv si len st -> len <= ntoks -> Tok0 si -> (forall e, In e es -> ElemOK terms e) ->
+      (sq_mode d = Strict \/ TrimOK (sq_terms d) terms) ->
+      NPr (seq_loop g toks rec fl d len si terms st es).
+    Proof.
+      induction es as [|e es IH]; intros st Hinv Hl H0 He Htr; cbn [seq_loop]; [apply np_ok|].
+      apply np_bind; [apply seq_elem_np; auto; apply He; left; reflexivity|].
+      intros r Hr. pose proof (seq_elem_spec g toks rec HrecB _ _ _ _ _ _ _ _ Hinv Hr) as Hs.
+      destruct r as [st'|m]; [|apply np_ok]. apply IH; auto. intros e' He'. apply He. right. exact He'.
+    Qed.
+
+    Lemma match_sequence_np fl d len idx terms :
+      idx <= len -> len <= ntoks -> Tok0 idx -> SeqOK d terms ->
+      NPr (match_sequence g toks rec fl d len idx terms).
+    Proof.
+      intros Hi Hl H0 (He & Htr). unfold match_sequence.
+      apply np_bind.
+      { destruct (pmode_eqb (sq_mode d) Greedy) eqn:Eg; [|apply np_ok].
+        destruct Htr as [Htr|Htr]; [rewrite Htr in Eg; discriminate|]. apply trim_np_of; auto. }
+      intros max0 Hmax0.
+      assert (Hmax : idx <= max0 /\ max0 <= len).
+      { destruct (pmode_eqb (sq_mode d) Greedy);
+          [apply (trim_to_terminator_spec g toks rec HrecB) in Hmax0; lia|inversion Hmax0; subst; lia]. }
+      assert (Hinv : SInv idx len (mkS idx max0 [] [] true [])) by (unfold SInv; cbn; lia).
+      apply np_bind; [apply seq_loop_np; auto|].
+      intros r Hr. pose proof (seq_loop_spec g toks rec HrecB _ _ _ _ _ _ _ _ Hinv Hr) as Hs.
+      destruct r as [st|m]; [|apply np_ok]. destruct Hs as (S1 & S2 & S3).
+      destruct (negb (pmode_eqb (sq_mode d) Strict) && (s_matched st <? s_max st)); [|apply np_ok].
+      apply np_bind; [apply skip_fwd_np; lia|]. intros i _.
+      apply np_bind; [apply skip_back_np; lia|]. intros stop _. destruct (i <? stop); apply np_ok.
+    Qed.
+
+    (* -------------------------------------------------------------- Bracketed *)
+    (** with one-code-token closers, a resolved bracket ends right after a code token *)
+    Lemma rb_loop_closer fl : forall len opening ti starts ends pers terms nested mi ch r,
+      closers_safe_b g starts ends = true -> SimpleAll (starts ++ ends) ->
+      mr_start opening <= mr_end opening -> mr_end opening <= mi -> mi <= len ->
+      rb_loop g toks rec fl len opening ti starts ends pers terms nested mi ch = ROk r ->
+      exists j, mr_end r = j + 1 /\ codeat toks j /\ mi <= j /\ j < len.
+    Proof.
+      induction fl as [|fl IH]; intros len opening ti starts ends pers terms nested mi ch r Hcs Hs Ho Hmi Hlen H;
+        cbn [rb_loop] in H; [discriminate|].
+      inv_bind H. destruct a as [m mt].
+      pose proof (next_match_spec g toks rec HrecB _ _ _ _ _ _ Hlen Ha) as (Hm1 & Hm2 & Hm3).
+      apply next_match_res in Ha; [|exact Hs].
+      destruct (negb (has_match m)) eqn:Ehm; [discriminate|]. apply negb_false_iff in Ehm.
+      destruct Ha as [[_ Hf]|(c & -> & (j & t & H1 & H2 & H3 & H4 & H5 & H6 & H7))]; [congruence|].
+      destruct (mcontains g ends c) eqn:Ec.
+      - destruct (mposition g ends c) as [ci|]; [|discriminate].
+        destruct (ci =? ti); [|discriminate].
+        destruct (nth_bool pers ti) as [p|]; [|discriminate].
+        pose proof (closers_safe_in g starts ends c Hcs H4 Ec) as Hc1.
+        destruct (Hcode _ _ _ _ _ Hc1 H6) as [->|(k & -> & Hcj & Hjl)];
+          [rewrite has_match_empty in H7; discriminate|].
+        exists j. destruct p; inversion H; subst.
+        + match goal with |- mr_end (wrap ?x ?y) = _ /\ _ => destruct (wrap_span x y) as [_ ->] end.
+          cbn. repeat split; auto; lia.
+        + cbn. repeat split; auto; lia.
+      - destruct (mposition g starts c) as [ti'|]; [|discriminate].
+        inv_bind H. rename a into inner.
+        apply (rb_loop_spec g toks rec HrecB) in Ha; [|lia|lia|lia]. destruct Ha as (_ & I2 & I3).
+        apply IH in H; auto; try lia. destruct H as (j' & J1 & J2 & J3 & J4). exists j'. repeat split; auto; lia.
+    Qed.
+
+    Lemma match_bracketed_np fl self found bs be pers gaps d len idx terms :
+      idx <= len -> len <= ntoks -> Tok0 idx ->
+      found = true -> gaps = true ->
+      (forall sb eb, bs = Some sb -> be = Some eb ->
+         NPr (rec sb idx len terms) /\ SimpleAll [sb; eb] /\ CallAll [sb; eb] terms
+         /\ closers_safe_b g [sb] [eb] = true /\ SeqOK d (deeper g true [eb] terms)) ->
+      NPr (match_bracketed g toks rec fl self found bs be pers gaps d len idx terms).
+    Proof.
+      intros Hi Hl H0 -> -> Hbe. unfold match_bracketed. cbn [negb].
+      destruct bs as [sb|]; [|apply np_dang]. destruct be as [eb|]; [|apply np_dang].
+      destruct (Hbe sb eb eq_refl eq_refl) as (Hsb & Hs & Hc & Hcs & Hseq).
+      apply np_bind; [exact Hsb|]. intros sm Hsm.
+      pose proof (HrecB _ _ _ _ _ Hi Hsm) as (S1 & S2 & S3).
+      destruct (negb (has_match sm)); [apply np_ok|].
+      apply np_bind.
+      { apply resolve_bracket_np; auto; try lia.
+        - eapply Tok0_le; [|exact H0]. lia.
+        - left. reflexivity. }
+      intros bm Hbm.
+      pose proof (resolve_bracket_spec g toks rec HrecB _ _ _ _ _ _ _ _ _ _ S2 S3 Hbm) as (B1 & B2 & B3).
+      unfold resolve_bracket in Hbm. destruct (mposition g [sb] sb) as [ti|]; [|discriminate].
+      apply rb_loop_closer in Hbm; auto; try lia. destruct Hbm as (j & J1 & J2 & J3 & J4).
+      assert (E0 : (mr_end bm =? 0) = false) by (apply N.eqb_neq; lia). rewrite E0. cbn [bind].
+      replace (mr_end bm - 1) with j by lia.
+      apply np_bind; [apply skip_fwd_np; lia|]. intros i1 Hi1. cbn [bind].
+      pose proof (skip_fwd_stop toks 1 ltac:(lia) _ _ _ _ _ J3 J2 Hi1) as Hi1j.
+      apply skip_fwd_spec in Hi1 as [F1 F2].
+      apply np_bind; [apply skip_back_np; lia|]. intros e1 He1.
+      apply skip_back_spec in He1 as [K1 K2]. specialize (K2 Hi1j).
+      assert (El : (len <? e1) = false) by (apply N.ltb_ge; lia). rewrite El. cbn [bind].
+      apply np_bind.
+      { apply match_sequence_np; auto; try lia. eapply Tok0_le; [|exact H0]. lia. }
+      intros cm _. destruct (negb (mr_end cm =? e1) && pmode_eqb (sq_mode d) Strict); [apply np_ok|].
+      cbn [negb andb]. apply np_ok.
+    Qed.
+
+    (* -------------------------------------------------------------- AnyNumberOf *)
+    Lemma parse_mode_result_np len cur mx mode idx :
+      B idx mx cur -> mx <= len -> len <= ntoks -> NPr (parse_mode_result g toks len cur mx mode).
+    Proof.
+      intros (C1 & C2 & C3) Hmx Hl. unfold parse_mode_result.
+      destruct (pmode_eqb mode Strict); [apply np_ok|].
+      destruct (mr_end cur =? mx); [apply np_ok|].
+      apply np_bind; [apply all_noncode_np; lia|]. intros nc _. destruct nc; [apply np_ok|].
+      apply np_bind; [apply skip_fwd_np; lia|]. intros t _. apply np_ok.
+    Qed.
+
+    (** the slice end chosen by [trim_to_terminator] is the end of the slice or follows a code token;
+        the cursor after skipped gaps never passes a code token.  Together they keep the cursor
+        inside the sub-slice [..max_idx] that [AnyNumberOf] hands to [longest_match]. *)
+    Definition MX (idx mx len : N) : Prop := mx = len \/ (idx < mx -> codeat toks (mx - 1)).
+    Definition WI (mi wi len : N) : Prop :=
+      mi <= wi /\ wi <= len /\ forall p, mi <= p -> codeat toks p -> wi <= p.
+
+    Lemma trim_to_terminator_mx fl len idx ts terms j :
+      idx <= len -> trim_to_terminator g toks rec fl len idx ts terms = ROk j -> MX idx j len.
+    Proof.
+      unfold trim_to_terminator, MX. intros Hi H.
+      destruct (len <=? idx); [inversion H; auto|].
+      inv_bind H. inv_bind H. destruct a0; [inversion H; subst; right; lia|].
+      inv_bind H. right. intro Hlt. eapply (skip_back_code toks 1); [lia|exact H|exact Hlt].
+    Qed.
+
+    Definition AnyOK (d : any_d) (terms : list N) : Prop :=
+      let T' := deeper g (an_reset d) (an_terms d) terms in
+      CkeyAll (an_elems d) /\ CallAll (an_elems d) T' /\ CallAll T' T'.
+
+    Lemma any_loop_np k : forall d len idx mx terms nm cs mi wi matched,
+      idx <= mx -> mx <= len -> len <= ntoks -> Tok0 idx ->
+      B idx mx matched -> mi = mr_end matched -> WI mi wi len -> MX idx mx len -> AnyOK d terms ->
+      NPr (any_loop g toks rec k d len idx mx terms nm cs mi wi matched).
+    Proof.
+      induction k as [|k IH]; intros d len idx mx terms nm cs mi wi matched Hi Hmx Hl H0 Hm Hmi Hwi Hmxp Hok;
+        cbn [any_loop]; [apply np_fuel|].
+      destruct (((an_min d <=? nm) && (mx <=? mi)) || opt_le (an_max d) nm);
+        [eapply parse_mode_result_np; eassumption|].
+      destruct (mx <=? mi) eqn:Emi; [apply np_ok|]. b2p.
+      destruct Hwi as (W1 & W2 & W3). pose proof Hm as (M1 & M2 & M3).
+      assert (Hwmx : wi <= mx).
+      { destruct Hmxp as [->|Hc]; [exact W2|]. assert (wi <= mx - 1); [|lia]. apply W3; [lia|]. apply Hc. lia. }
+      destruct Hok as (Hk & Hc & Ht).
+      apply np_bind.
+      { apply longest_match_np; auto; try lia. eapply Tok0_le; [|exact H0]. lia. }
+      intros [m mo] Hlm.
+      destruct (negb (has_match m)) eqn:Ehm.
+      { eapply parse_mode_result_np; [|exact Hmx|exact Hl].
+        destruct (nm <? an_min d); [apply B_empty; exact Hi|exact Hm]. }
+      apply negb_false_iff in Ehm.
+      destruct (longest_match_res _ _ _ _ _ _ Hlm Ehm) as (o & -> & Ho).
+      destruct (has_ckey_of o (Hk o Ho)) as [ck ->]. cbn [bind].
+      destruct (bump ck cs) as [cs' cnt].
+      destruct (match cnt with Some c => opt_lt (an_max_per d) c | None => false end);
+        [eapply parse_mode_result_np; eassumption|].
+      apply (longest_match_spec g toks rec HrecB) in Hlm. destruct Hlm as [->|[Hw Hbm]];
+        [rewrite has_match_empty_lit in Ehm; discriminate|].
+      assert (Hm' : B idx mx (append matched m)).
+      { apply B_append; [exact Hm|eapply B_weaken; [|exact Hbm]; lia|destruct Hbm; lia]. }
+      destruct Hm' as (A1 & A2 & A3).
+      apply np_bind; [destruct (an_gaps d); [apply skip_fwd_np; lia|apply np_ok]|].
+      intros w' Hw'.
+      apply IH; auto; try (unfold B; lia); [|repeat split; auto].
+      unfold WI. destruct (an_gaps d).
+      - pose proof (skip_fwd_spec _ _ _ _ _ Hw') as (F1 & F2). repeat split; try lia.
+        intros p Hp Hcp. eapply (skip_fwd_stop toks 1); [lia|exact Hp|exact Hcp|exact Hw'].
+      - inversion Hw'; subst. repeat split; try lia; try (intros; assumption).
+    Qed.
+
+    Lemma init_counters_total es : CkeyAll es -> exists cs, init_counters g es = ROk cs.
+    Proof.
+      induction es as [|e es IH]; intro Hk; cbn [init_counters]; [eauto|].
+      destruct (has_ckey_of e (Hk e (or_introl eq_refl))) as [k ->]. cbn [bind].
+      destruct IH as [cs ->]; [intros c Hc; apply Hk; right; exact Hc|]. cbn [bind]. eauto.
+    Qed.
+
+    Lemma match_anynumberof_np fl d len idx terms :
+      idx <= len -> len <= ntoks -> Tok0 idx ->
+      (forall ex, an_exclude d = Some ex -> NPr (rec ex idx len terms)) ->
+      (an_mode d = Greedy ->
+       let ts := if an_reset d then an_terms d else an_terms d ++ terms in
+       SimpleAll ts /\ CallAll ts terms /\ CallAll (brk g) terms) ->
+      AnyOK d terms ->
+      NPr (match_anynumberof g toks rec fl d len idx terms).
+    Proof.
+      intros Hi Hl H0 Hex Hgr Hok. unfold match_anynumberof.
+      apply np_bind.
+      { destruct (an_exclude d) as [ex|]; [|apply np_ok].
+        apply np_bind; [apply Hex; reflexivity|intros; apply np_ok]. }
+      intros excluded _. destruct excluded; [apply np_ok|].
+      destruct (init_counters_total (an_elems d) (proj1 Hok)) as [cs ->]. cbn [bind].
+      apply np_bind.
+      { destruct (pmode_eqb (an_mode d) Greedy) eqn:Eg; [|apply np_ok].
+        assert (Em : an_mode d = Greedy) by (destruct (an_mode d); try discriminate; reflexivity).
+        destruct (Hgr Em) as (G1 & G2 & G3). apply trim_to_terminator_np; auto. }
+      intros mx Hmxe.
+      assert (Hmx : idx <= mx /\ mx <= len /\ MX idx mx len).
+      { destruct (pmode_eqb (an_mode d) Greedy).
+        - pose proof (trim_to_terminator_mx _ _ _ _ _ _ Hi Hmxe).
+          apply (trim_to_terminator_spec g toks rec HrecB) in Hmxe; [|exact Hi]. repeat split; try lia. assumption.
+        - inversion Hmxe; subst. repeat split; try lia. left. reflexivity. }
+      destruct Hmx as (X1 & X2 & X3).
+      assert (El : (len <? mx) = false) by (apply N.ltb_ge; lia). rewrite El. cbn [bind].
+      apply any_loop_np; auto.
+      - apply B_empty. lia.
+      - unfold WI. cbn. repeat split; try lia; try (intros; assumption).
+    Qed.
+
+    (* -------------------------------------------------------------- Delimited *)
+    Definition DelimOK (d : any_d) (delim : N) (tms terms : list N) : Prop :=
+      CkeyAll tms /\ CallAll tms terms /\ CallAll terms terms
+      /\ (let T0 := deeper g false [] terms in
+          CkeyAll [delim] /\ CallAll [delim] T0 /\ CallAll T0 T0)
+      /\ (let T1 := deeper g false [delim] terms in
+          CkeyAll (an_elems d) /\ CallAll (an_elems d) T1 /\ CallAll T1 T1).
+
+    Lemma delim_loop_np k : forall d delim tr mn len idx terms tms dl sk w wm dm,
+      idx <= w -> w <= len -> len <= ntoks -> Tok0 idx -> DelimOK d delim tms terms ->
+      NPr (delim_loop g toks rec k d delim tr mn len idx terms tms dl sk w wm dm).
+    Proof.
+      induction k as [|k IH]; intros d delim tr mn len idx terms tms dl sk w wm dm Hw Hl Hn H0 Hok;
+        cbn [delim_loop]; [apply np_fuel|].
+      assert (Hfin : forall sk' dm' dl' wm', NPr (delim_finish tr mn idx sk' dm' dl' wm')).
+      { intros. unfold delim_finish. destruct dm' as [x|]; [destruct (tr && negb sk')|];
+          match goal with |- NPr (if ?c then _ else _) => destruct c end; apply np_ok. }
+      apply np_bind; [destruct (an_gaps d && (idx <? w)); [apply skip_fwd_np; lia|apply np_ok]|].
+      intros w' Hw'.
+      assert (Hw2 : w <= w' /\ w' <= len)
+        by (destruct (an_gaps d && (idx <? w)); [apply skip_fwd_spec in Hw'; lia|inversion Hw'; subst; lia]).
+      destruct (len <=? w'); [apply Hfin|].
+      destruct Hok as (K1 & K2 & K3 & (K4 & K5 & K6) & (K7 & K8 & K9)).
+      assert (H0' : Tok0 w') by (eapply Tok0_le; [|exact H0]; lia).
+      apply np_bind; [apply longest_match_np; auto; lia|]. intros [tm tmo] _.
+      destruct (has_match tm); [apply Hfin|].
+      apply np_bind.
+      { destruct sk; apply longest_match_np; auto; lia. }
+      intros [m mo] Hlm.
+      destruct (negb (has_match m)) eqn:Ehm; [apply Hfin|]. apply negb_false_iff in Ehm.
+      apply (longest_match_spec g toks rec HrecB) in Hlm. destruct Hlm as [->|[Hlt (M1 & M2 & M3)]];
+        [rewrite has_match_empty_lit in Ehm; discriminate|].
+      assert (Hok' : DelimOK d delim tms terms) by (repeat split; assumption).
+      destruct sk.
+      - apply IH; auto; lia.
+      - destruct dm as [x|]; apply IH; auto; lia.
+    Qed.
+
+    Lemma match_delimited_np fl d delim tr mn len idx terms :
+      idx <= len -> len <= ntoks -> Tok0 idx ->
+      DelimOK d delim (an_terms d ++ filter (fun t => negb (meq g delim t)) terms
+                       ++ (if an_gaps d then [] else [g_noncode g])) terms ->
+      NPr (match_delimited g toks rec fl d delim tr mn len idx terms).
+    Proof. intros. unfold match_delimited. apply delim_loop_np; auto. lia. Qed.
+
+    (* -------------------------------------------------------------- from the certificate to the premises *)
+    Lemma sub_deeper clear push terms T :
+      Sub terms T -> Sub (deeper g clear push terms) (adds push (if clear then PS.empty else T)).
+    Proof.
+      intros Hs x Hx. apply deeper_in in Hx. apply adds_in. destruct Hx as [Hx|[-> Hx]]; [left; exact Hx|].
+      right. apply Hs. exact Hx.
+    Qed.
+    Lemma sub_members terms T x : Sub terms T -> In x terms -> In x (members T).
+    Proof. intros Hs Hx. apply members_in. apply Hs. exact Hx. Qed.
+
+    Lemma forallb_in {A} (f : A -> bool) l x : forallb f l = true -> In x l -> f x = true.
+    Proof. intro H. rewrite forallb_forall in H. apply H. Qed.
+
+    Lemma greedy_ok_of ms useT T terms :
+      Sub terms T -> forallb (has_simple_b g) (greedy_ms ms useT T) = true ->
+      (forall e, In e (greedy_edges g ms useT T) -> flows_b cx e = true) ->
+      let ts := ms ++ (if useT then terms else []) in
+      SimpleAll ts /\ CallAll ts terms /\ CallAll (brk g) terms.
+    Proof.
+      intros Hs Hsim Hfl ts.
+      assert (Hin : forall x, In x ts -> In x (greedy_ms ms useT T)).
+      { intros x Hx. unfold ts in Hx. unfold greedy_ms. apply in_app_or in Hx as [Hx|Hx]; apply in_or_app; [left; exact Hx|right].
+        destruct useT; [eapply sub_members; eassumption|destruct Hx]. }
+      split; [|split].
+      - intros c Hc. eapply forallb_in; [exact Hsim|]. apply Hin. exact Hc.
+      - intros c Hc. eapply flows_callable; [|exact Hs]. apply Hfl. unfold greedy_edges.
+        apply (in_map (fun t => (t, T))). apply in_or_app. left. apply Hin. exact Hc.
+      - intros c Hc. eapply flows_callable; [|exact Hs]. apply Hfl. unfold greedy_edges.
+        apply (in_map (fun t => (t, T))). apply in_or_app. right. exact Hc.
+    Qed.
+
+    Lemma seq_ok_of d T terms :
+      Sub terms T -> seq_local g d T = true ->
+      (forall e, In e (seq_edges g d T) -> flows_b cx e = true) -> SeqOK d terms.
+    Proof.
+      intros Hs Hloc Hfl. unfold seq_local in Hloc. apply andb_true_iff in Hloc as [Hel Htr]. split.
+      - intros e He. pose proof (forallb_in _ _ _ Hel He) as Hok. unfold elem_ok in Hok.
+        destruct (get (g_nodes g) e) as [ie|] eqn:Eie; [|discriminate]. exists ie. split; [exact Eie|].
+        assert (Hcall : elem_called g e = true -> Callable e terms).
+        { intro Hcl. eapply flows_callable; [|exact Hs]. apply Hfl. unfold seq_edges. apply in_or_app. left.
+          apply (in_map (fun e => (e, T))). apply filter_In. split; assumption. }
+        unfold elem_called in Hcall. rewrite Eie in Hcall.
+        destruct (n_node ie); try exact I;
+          (split; [apply Hcall; reflexivity|destruct (n_opt ie) as [b|]; [eauto|discriminate]]).
+      - destruct (pmode_eqb (sq_mode d) Strict) eqn:Em.
+        + left. destruct (sq_mode d); try discriminate; reflexivity.
+        + right. cbn [orb] in Htr.
+          apply (greedy_ok_of (sq_terms d) true T terms Hs Htr).
+          intros e He. apply Hfl. unfold seq_edges. rewrite Em. apply in_or_app. right. exact He.
+    Qed.
+
+    Lemma np_is_ok_and (x : res mr) : NPr x ->
+      NPr (match x with ROk m => ROk (has_match m) | RErr => ROk false | RPanic p => RPanic p | RFuel => RFuel end).
+    Proof. intro H. destruct x; try apply np_ok; [|apply np_fuel]. eapply np_retype. exact H. Qed.
+
+    Definition pass_children (i : ninfo) : list N :=
+      match n_node i with
+      | GRef (Some t) ex _ _ => t :: opt_list ex
+      | GAny d => opt_list (an_exclude d)
+      | GBracketed _ (Some sb) (Some _) _ _ _ => [sb]
+      | _ => []
+      end.
+    Definition leaf_kind (i : ninfo) : bool :=
+      match n_node i with
+      | GString _ _ | GMulti _ _ | GTyped _ _ | GRegex _ _ | GBracketSeg => true
+      | _ => false
+      end.
+
+    Lemma match_node_body_gen fl n idx len terms i :
+      idx <= len -> len <= ntoks -> Tok0 idx -> Callable n terms -> get (g_nodes g) n = Some i ->
+      (forall c t, In c (pass_children i) -> Callable c t -> NPr (rec c idx len t)) ->
+      (leaf_kind i = true -> idx < len) ->
+      NPr (match_node_body g toks rx rec fl n idx len terms).
+    Proof.
+      intros Hi Hl H0 (T & HT & Hs) Hget Hpass Hleaf.
+      destruct (cert_entry _ _ HT) as (i' & Hget' & Hloc & Hfl). rewrite Hget in Hget'. inversion Hget'; subst i'.
+      assert (Hedge : forall c S t, In (c, S) (edges g i T) -> Sub t S -> Callable c t)
+        by (intros c S t Hin HS; eapply flows_callable; [apply Hfl; exact Hin|exact HS]).
+      unfold match_node_body. rewrite (info_present _ _ Hget). cbn [bind].
+      unfold local_ok in Hloc. unfold edges in Hedge, Hfl. unfold pass_children in Hpass. unfold leaf_kind in Hleaf.
+      destruct (n_node i) eqn:En.
+      - (* GRef *)
+        destruct target as [t|]; [|apply np_dang].
+        set (T2 := adds terms0 (if reset then PS.empty else T)) in *.
+        assert (HS2 : Sub (deeper g reset terms0 terms) T2) by (apply sub_deeper; exact Hs).
+        apply np_bind.
+        + destruct exclude as [e|]; [|apply np_ok]. apply np_is_ok_and.
+          apply Hpass; [right; left; reflexivity|]. eapply Hedge; [|exact HS2]. right. left. reflexivity.
+        + intros ex _. destruct ex; [apply np_ok|].
+          apply Hpass; [left; reflexivity|]. eapply Hedge; [|exact HS2]. left. reflexivity.
+      - (* GSeq *)
+        apply match_sequence_np; auto. eapply seq_ok_of; eauto.
+      - (* GBracketed *)
+        apply andb_true_iff in Hloc as [Hfg Hloc]. apply andb_true_iff in Hfg as [Hf Hg]. subst found gaps.
+        apply match_bracketed_np; auto. intros sb eb -> ->.
+        apply andb_true_iff in Hloc as [Hloc Hsl]. apply andb_true_iff in Hloc as [Hloc Hcs].
+        apply andb_true_iff in Hloc as [Hsb Heb].
+        assert (Hcsb : Callable sb terms) by (eapply Hedge; [left; reflexivity|exact Hs]).
+        assert (Hceb : Callable eb terms) by (eapply Hedge; [right; left; reflexivity|exact Hs]).
+        split; [apply Hpass; [left; reflexivity|exact Hcsb]|].
+        split; [intros c [<-|[<-|[]]]; assumption|].
+        split; [intros c [<-|[<-|[]]]; assumption|].
+        split; [exact Hcs|].
+        eapply seq_ok_of; [|exact Hsl|].
+        + intros x Hx. apply deeper_in in Hx as [[<-|[]]|[Hx _]]; [|discriminate].
+          unfold inT. apply PS.singleton_spec. reflexivity.
+        + intros e He. apply Hfl. right. right. exact He.
+      - (* GAny *)
+        apply andb_true_iff in Hloc as [Hck Hgr]. rewrite forallb_forall in Hck.
+        set (T2 := any_T2 d T) in *.
+        assert (HS2 : Sub (deeper g (an_reset d) (an_terms d) terms) T2) by (apply sub_deeper; exact Hs).
+        apply match_anynumberof_np; auto.
+        + intros ex Hex. apply Hpass; [rewrite Hex; left; reflexivity|].
+          eapply Hedge; [|exact Hs]. apply in_or_app. left. rewrite Hex. left. reflexivity.
+        + intros Hm. rewrite Hm in Hgr. cbn [pmode_eqb negb orb] in Hgr.
+          assert (Hgo := greedy_ok_of (an_terms d) (negb (an_reset d)) T terms Hs Hgr).
+          cbn zeta in Hgo. destruct (an_reset d); cbn [negb] in Hgo; [rewrite app_nil_r in Hgo|];
+            apply Hgo; intros e He; apply Hfl; apply in_or_app; right; apply in_or_app; left;
+            rewrite Hm; exact He.
+        + unfold AnyOK. cbn zeta. split; [intros c Hc; apply Hck; exact Hc|]. split.
+          * intros c Hc. eapply Hedge; [|exact HS2]. apply in_or_app. right. apply in_or_app. right.
+            apply (in_map (fun e => (e, T2))). apply in_or_app. left. exact Hc.
+          * intros c Hc. eapply Hedge; [|exact HS2]. apply in_or_app. right. apply in_or_app. right.
+            apply (in_map (fun e => (e, T2))). apply in_or_app. right. eapply sub_members; eassumption.
+      - (* GDelim *)
+        rewrite forallb_forall in Hloc.
+        set (T2 := PS.add (key delim) T) in *.
+        assert (HST2 : Sub terms T2) by (intros x Hx; apply PS.add_spec; right; apply Hs; exact Hx).
+        assert (HS0 : forall x, In x (deeper g false [] terms) -> In x terms)
+          by (intros x Hx; apply deeper_in in Hx as [[]|[_ Hx]]; exact Hx).
+        assert (HS1 : Sub (deeper g false [delim] terms) T2).
+        { intros x Hx. apply deeper_in in Hx as [[<-|[]]|[_ Hx]]; [apply PS.add_spec; left; reflexivity|apply HST2; exact Hx]. }
+        assert (Hterm : forall x t, In x terms -> Sub t T -> Callable x t).
+        { intros x t Hx Ht. eapply Hedge; [|exact Ht]. apply in_or_app. left. apply (in_map (fun e => (e, T))).
+          apply in_or_app. right. apply in_or_app. right. exact (sub_members _ _ _ Hs Hx). }
+        apply match_delimited_np; auto. unfold DelimOK. cbn zeta. repeat split.
+        + intros c Hc. apply Hloc. apply in_app_or in Hc as [Hc|Hc]; apply in_or_app; [left; exact Hc|right].
+          apply in_app_or in Hc as [Hc|Hc]; apply in_or_app; [right; apply in_or_app; left|left; exact Hc].
+          apply filter_In in Hc as [Hc _]. eapply sub_members; eassumption.
+        + intros c Hc. apply in_app_or in Hc as [Hc|Hc].
+          * eapply Hedge; [|exact Hs]. apply in_or_app. left. apply (in_map (fun e => (e, T))). apply in_or_app. left. exact Hc.
+          * apply in_app_or in Hc as [Hc|Hc]; [apply filter_In in Hc as [Hc _]; apply Hterm; assumption|].
+            eapply Hedge; [|exact Hs]. apply in_or_app. left. apply (in_map (fun e => (e, T))). apply in_or_app. right.
+            apply in_or_app. left. exact Hc.
+        + intros c Hc. apply Hterm; assumption.
+        + intros c [<-|[]]. apply Hloc. apply in_or_app. right. apply in_or_app. right. apply in_or_app. right. left. reflexivity.
+        + intros c [<-|[]]. eapply Hedge; [apply in_or_app; right; left; reflexivity|].
+          intros x Hx. apply HST2. apply HS0. exact Hx.
+        + intros c Hc. apply Hterm; [apply HS0; exact Hc|]. intros x Hx. apply Hs. apply HS0. exact Hx.
+        + intros c Hc. apply Hloc. apply in_or_app. right. apply in_or_app. right. apply in_or_app. right. right. exact Hc.
+        + intros c Hc. eapply Hedge; [|exact HS1]. apply in_or_app. right. right.
+          apply (in_map (fun e => (e, T2))). apply in_or_app. left. exact Hc.
+        + intros c Hc. eapply Hedge; [|exact HS1]. apply in_or_app. right. right.
+          apply (in_map (fun e => (e, T2))). apply in_or_app. right. eapply sub_members; [exact HS1|exact Hc].
+      - (* GNodeM *)
+        destruct (len <=? idx) eqn:E; [apply np_ok|]. b2p.
+        destruct (tok_def len idx E Hl) as [t ->]. cbn [bind].
+        destruct (p_kind t =? kind); [apply np_ok|].
+        apply np_bind; [|intros; apply np_ok].
+        apply HrecNP; auto. eapply Hedge; [left; reflexivity|exact Hs].
+      - destruct (tok_def len idx (Hleaf eq_refl) Hl) as [t ->]. cbn [bind].
+        destruct (p_code t && (p_upper t =? upper)); apply np_ok.
+      - destruct (tok_def len idx (Hleaf eq_refl) Hl) as [t ->]. cbn [bind].
+        destruct (p_code t && memN (p_upper t) uppers); apply np_ok.
+      - destruct (tok_def len idx (Hleaf eq_refl) Hl) as [t ->]. cbn [bind].
+        destruct (p_kind t =? template); apply np_ok.
+      - destruct (tok_def len idx (Hleaf eq_refl) Hl) as [t ->]. cbn [bind].
+        destruct (existsb _ rx); apply np_ok.
+      - discriminate.
+      - destruct enabled; apply np_ok.
+      - (* GAnything *)
+        destruct (is_empty terms0 && is_empty terms) eqn:Ee; [apply np_ok|].
+        destruct (is_empty terms0 && PS.is_empty T) eqn:Et.
+        { apply andb_true_iff in Et as [Et1 Et2]. rewrite Et1 in Ee. cbn [andb] in Ee.
+          apply PS.is_empty_spec in Et2. destruct terms as [|x terms]; [discriminate|].
+          exfalso. apply (Et2 (key x)). apply Hs. left. reflexivity. }
+        cbn [orb] in Hloc. apply andb_true_iff in Hloc as [Hsim Hnk].
+        destruct (greedy_ok_of terms0 true T terms Hs Hsim Hfl) as (G1 & G2 & G3).
+        apply greedy_match_np; auto.
+        right. left. intros c Hc. rewrite forallb_forall in Hnk. apply negb_true_iff. apply Hnk.
+        unfold greedy_ms. apply in_app_or in Hc as [Hc|Hc]; apply in_or_app; [left; exact Hc|right].
+        eapply sub_members; eassumption.
+      - apply np_ok.
+      - apply np_bind; [apply noncode_scan_np; exact Hl|]. intros hit _.
+        destruct hit as [j|]; [destruct (idx <? j)|]; apply np_ok.
+      - destruct (tok_def len idx (Hleaf eq_refl) Hl) as [t ->]. cbn [bind].
+        destruct (p_kind t =? k_bracketed g); apply np_ok.
+    Qed.
